@@ -782,8 +782,13 @@ def _r4(run, mi):
     for Z in range(1, 19):
         for tcx in (False, True):
             run.subject('C09-R4')
-            M = _unroll(fn, Z, tcx)
             tag = 'Z=%d %s' % (Z, 'donor' if tcx else 'no-donor')
+            try:
+                M = _unroll(fn, Z, tcx)
+            except AnalysisError as e_:
+                # a statement form the concrete unrolling does not model: undecided, not an analysis failure
+                run.undecided('C09-R4', tag, str(e_)[:100])
+                continue
             bad = []
             for c in range(Z + 1):
                 s = C(0)
